@@ -412,10 +412,22 @@ def r2_subschemas(chk, kind, ver, wf, rf, wt, key0):
     chk.require(len(cn_all) == 1, f"{rf.key}: expected one connect(...) call (directly or in a helper it calls)")
     c, cbind = cn_all[0]
     star = [a for a in c.args if isinstance(a, ast.Starred)]
-    chk.require(len(star) == 1 and len(c.args) == 1 and isinstance(star[0].value, ast.Subscript), f"{rf.key}: connect(*b[:k], ...) idiom not found")
-    sl = star[0].value.slice
-    k1 = sl.upper.value if isinstance(sl, ast.Slice) and sl.lower is None and isinstance(sl.upper, ast.Constant) else None
     z = [x for x in ast.walk(c) if isinstance(x, ast.Call) and call_name(x) == "zip"]
+    unpacked = None   # `for a1, a2, *rest in bonds: connect(a1, a2, **dict(zip(S[2:], rest)))`
+    if not star:
+        for sc in rscopes:
+            scn = sc[0] if isinstance(sc, tuple) else sc
+            for lp in [l for l in ast.walk(scn) if isinstance(l, ast.For) and any(x is c for x in ast.walk(l))]:
+                t = lp.target
+                if isinstance(t, ast.Tuple) and t.elts and isinstance(t.elts[-1], ast.Starred) and all(isinstance(x, ast.Name) for x in t.elts[:-1]) \
+                        and [norm(a) for a in c.args] == [x.id for x in t.elts[:-1]] and len(z) == 1 and len(z[0].args) == 2 and norm(z[0].args[1]) == norm(t.elts[-1].value):
+                    unpacked = len(t.elts) - 1
+    if unpacked is not None:
+        k1 = unpacked
+    else:
+        chk.require(len(star) == 1 and len(c.args) == 1 and isinstance(star[0].value, ast.Subscript), f"{rf.key}: connect(*b[:k], ...) idiom not found")
+        sl = star[0].value.slice
+        k1 = sl.upper.value if isinstance(sl, ast.Slice) and sl.lower is None and isinstance(sl.upper, ast.Constant) else None
     chk.require(len(z) == 1 and len(z[0].args) == 2, f"{rf.key}: connect(**dict(zip(S[k:], b[k:]))) idiom not found")
     zs = RX(z[0].args[0])
     if isinstance(zs, ast.Subscript):
@@ -423,7 +435,7 @@ def r2_subschemas(chk, kind, ver, wf, rf, wt, key0):
     else:
         zs = _subst(zs, cbind)
     rbS, rbk = _schema_of(chk, m, zs)
-    _, k3 = _schema_of(chk, m, z[0].args[1])
+    k3 = unpacked if unpacked is not None else _schema_of(chk, m, z[0].args[1])[1]
     ok = wbS == rbS and wbk == rbk == k1 == k3 == 2
     chk.decide(ok, "C01.R2", f"{key0}:bond-schema", rf.where(c), f"{wbS}[2:] both ways, endpoints b[:2]",
                f"bond tail written with {wbS}[{wbk}:], read with {rbS}[{rbk}:] from b[{k3}:], endpoints from b[:{k1}]")
